@@ -405,8 +405,9 @@ def r11_5(run):
             def on_list_leg(n):
                 return any(lab == 'T' for t_, lab in g.guarded_by(n, lambda x: isinstance(x, ast.Call) and (dotted(x.func) or '').endswith('is_list_config_type'))) or \
                     any((lab == 'T') == isinstance(t_.ast.ops[0], ast.In) for t_, lab in g.guarded_by(n, lambda x: isinstance(x, ast.Compare) and dotted(x.comparators[0]) == 'self.list_parsers'))
-            hit = [n for n in hit if on_list_leg(n)]
-            run.ob('R11.5', u, a, 'an empty value of a list option is not treated as unset', not hit, slot='empty-not-unset:%s' % name,
+            # (that reading is pinned for the bootstrap answers only: a CONF_CHANGED line "Key=" says the option was set to the empty string)
+            hit = [n for n in hit if on_list_leg(n) or name == '_conf_changed']
+            run.ob('R11.5', u, a, 'an empty value (of a list option; of any option in a change event) is not treated as unset', not hit, slot='empty-not-unset:%s' % name,
                    message='%s: when %s says the value is empty, the option default is substituted: an option Tor reports as explicitly empty shows its '
                            'defaults, and a later edit + save sends those defaults to Tor' % (name, src(a)[:40]))
     # port lists: when config/defaults has no entry for an unset / auto port option, its __FooPort default is asked for.
@@ -608,6 +609,26 @@ def r11_16(run):
             if isinstance(n, ast.Assign) and any(isinstance(t, ast.Subscript) and dotted(t.value) == 'self.__dict__' and const_str(t.slice) == key for t in n.targets):
                 run.ob('R11.16', u, n, 'accept-all mode is entered only by the constructor', u.name == '__init__', slot='enter-accept-all@%s' % u.name,
                        message='%s switches the view to accept-all mode' % u.name)
+
+
+def r11_17(run):
+    """a change event can arrive while the bootstrap is still asking for option values (every GETCONF is a yield): _conf_changed
+    and __getattr__ read Tor's defaults from self._defaults, so that table is in place before the first option value is awaited.
+    Publishing it only after the loop leaves a window in which an option reported unset is stored as the raw marker / an empty
+    list and never revisited"""
+    u = CU(run, '_do_setup')
+    g = cfg_of(u)
+    stores = [n for n in g.real_nodes() if n.kind == 'stmt' and isinstance(n.ast, ast.Assign) and any(
+        (isinstance(t, ast.Subscript) and dotted(t.value) == 'self.__dict__' and const_str(t.slice) == '_defaults') or dotted(t) == 'self._defaults' for t in n.ast.targets)]
+    run.floor('R11.17', 'stores of the defaults table in _do_setup', len(stores), 1)
+    waits = [n for n in g.real_nodes() if n.kind == 'stmt' and any(isinstance(a, ast.Yield) and isinstance(a.value, ast.Call) and callee_attr(a.value) in ('get_conf', 'get_conf_raw')
+                                                                  for a in node_asts(n))]
+    run.floor('R11.17', 'awaited GETCONF sites in _do_setup', len(waits), 1)
+    for w in waits:
+        ok = any(g.dominates(s_, w) for s_ in stores)
+        run.ob('R11.17', u, w.ast, "Tor's defaults are published before the first option value is awaited", ok, slot='defaults-before-getconf',
+               message='_do_setup awaits %s before self._defaults is set: a CONF_CHANGED that reports an already loaded option as unset in that window finds no '
+                       'defaults (scalar: raw marker, list: empty) and the loop never revisits the option' % src(w.ast)[:50])
 
 
 def r11_8(run):
@@ -910,6 +931,7 @@ RULES = [
     ('R11.14', 'save() re-wraps only non-list values (a pending tracked list keeps its identity in the view)', r11_14),
     ('R11.15', 'who may publish: outside save() no store into self.config takes its value from self.unsaved', r11_15),
     ('R11.16', 'mode typestate: a method that installs a protocol leaves accept-all mode on every normal path; only __init__ enters it', r11_16),
+    ('R11.17', 'ordering: the defaults table is stored before the first GETCONF of the bootstrap is awaited', r11_17),
     ('R11.6', 'no dropped Deferred in the configuration bootstrap (every GETCONF is awaited before the view is declared ready)', r11_6),
     ('R11.5', 'sibling agreement: default lookup + parse on the unset leg in _do_setup and _conf_changed; key-form agreement of list_parsers writers/reader', r11_5),
     ('R11.1', 'store-site typing: every value stored under a Tor option key that may be list-typed is a _ListWrapper (or excluded by a dominating test / copied from the wrapped pending set)', r11_1),
